@@ -98,7 +98,7 @@ def tok_eq(a, b):
     k = a[0]
     if k in ('I', 'LT'):
         return name_eq(a[1], b[1])
-    if k in ('P', 'L'):
+    if k in ('P', 'L', 'ATOM'):
         return a[1] == b[1]
     if k == 'G':
         if a[1] != b[1]:
@@ -265,6 +265,10 @@ def parse_items(toks):
             it_attrs.append(toks[i + 1][2])
             i += 2
         vis = []
+        while i < n and toks[i][0] == 'ATOM':
+            # an input node the macro passed through without looking (visibility / attribute list): kept as one atom
+            vis.append(toks[i])
+            i += 1
         if i < n and is_i(toks[i], 'pub'):
             vis.append(toks[i])
             i += 1
